@@ -9,7 +9,7 @@ from typing import Any, Dict, List
 
 from .. import gen, hta
 from ..core import Prop
-from .common import case_from_cfg, write_and_load
+from .common import case_from_cfg, draw_prefix, write_and_load
 
 
 def rows_full(ta, rank: int) -> List[Dict[str, Any]]:
@@ -55,6 +55,7 @@ class C14(Prop):
         case = case_from_cfg(rng, counters_cfg(rng, tier))
         n = len(case["ranks"])
         case["req"] = sorted(rng.sample(range(n), rng.randint(1, n)))
+        case["prefix"] = draw_prefix(rng)
         return case
 
     def observe(self, case):
@@ -123,6 +124,7 @@ class C15(Prop):
         n = len(case["ranks"])
         case["req"] = rng.sample(range(n), rng.randint(1, n))       # any order
         case["mem"] = rng.random() < 0.5
+        case["prefix"] = draw_prefix(rng)
         return case
 
     def observe(self, case):
@@ -172,6 +174,7 @@ class C06(Prop):
         case["thr"] = rng.choice([1, 2, 5, 30, 31])
         case["sub"] = rng.random() < 0.4
         case["subseed"] = rng.randrange(1000)
+        case["prefix"] = draw_prefix(rng)
         return case
 
     def observe(self, case):
